@@ -172,7 +172,17 @@ def _type_argument_key(
         return specialized if isinstance(specialized, type) else argument
 
     if origin is Union or origin is UnionType:
-        return (Union, frozenset(_type_argument_key(element) for element in arguments))
+        elements: set[Any] = set()
+        for element in arguments:
+            match _type_argument_key(element):
+                case (marker, frozenset() as nested) if marker is Union:
+                    # union nested within union (through an alias) is the same as a flat one
+                    elements.update(cast(frozenset[Any], nested))
+
+                case key:
+                    elements.add(key)
+
+        return (Union, frozenset(elements))
 
     return (
         origin,
